@@ -133,17 +133,17 @@ fn step<const READ_VAL: bool, const O: usize, const READS: u8>() {
     core::mem::forget(r);
 }
 
-macro_rules! step_h { ($($name:ident $rv:expr, $o:expr, $reads:expr);*) => { $(
+macro_rules! step_h { ($uw:expr; $($name:ident $rv:expr, $o:expr, $reads:expr);*) => { $(
     #[kani::proof]
-    #[kani::unwind(8)]
+    #[kani::unwind($uw)]
     #[kani::stub(std::vec::Vec::resize, crate::models::vec_resize)]
     pub fn $name() { step::<$rv, $o, $reads>() } )* } }
 // quick tier: at most ONE completed source read per poll (every Inv state is still a pre-state, so the
 // induction covers schedules of any length; a poll that completes two reads passes through a covered state)
-step_h!(c15_q_step_readlen_0 false, 0, 1; c15_q_step_readlen_1 false, 1, 1; c15_q_step_readlen_2 false, 2, 1; c15_q_step_readlen_3 false, 3, 1;
+step_h!(6; c15_q_step_readlen_0 false, 0, 1; c15_q_step_readlen_1 false, 1, 1; c15_q_step_readlen_2 false, 2, 1; c15_q_step_readlen_3 false, 3, 1;
         c15_q_step_readlen_4 false, 4, 1; c15_q_step_readval_0 true, 0, 1; c15_q_step_readval_1 true, 1, 1; c15_q_step_readval_2 true, 2, 1);
 // thorough tier: up to TWO completed reads per poll
-step_h!(c15_t_step_readlen_0 false, 0, 2; c15_t_step_readlen_1 false, 1, 2; c15_t_step_readlen_2 false, 2, 2; c15_t_step_readlen_3 false, 3, 2;
+step_h!(7; c15_t_step_readlen_0 false, 0, 2; c15_t_step_readlen_1 false, 1, 2; c15_t_step_readlen_2 false, 2, 2; c15_t_step_readlen_3 false, 3, 2;
         c15_t_step_readlen_4 false, 4, 2; c15_t_step_readval_0 true, 0, 2; c15_t_step_readval_1 true, 1, 2; c15_t_step_readval_2 true, 2, 2);
 
 /// Base case: a new reader satisfies Inv at a frame boundary.
